@@ -37,6 +37,9 @@ func RaftNode.applyAdd
   ensures C07/exactly-one-write: mutateCalls == old(mutateCalls) + 1
   ensures C07/state-after-write: n.state == state
   ensures C07/state-in-the-same-batch: lastWriteCarriesState
+  // what is encoded for that write is the state AFTER this entry (the state before it would make a
+  // restarted node apply the entry again: its events twice, under new versions)
+  at fsmState.encode assert C05,C07/stored-state-is-the-new-state: arg0 == state
   ensures C05/balloon-advanced: n.balloon.version == old(n.balloon.version) + uint64(len(hashes))
   ensures result != nil
 
@@ -102,7 +105,7 @@ func RaftNode.QueryDigestMembershipConsistency
   modifies everything, proveCalls, lastProveVersion
 func RaftNode.QueryConsistency
   props C11
-  requires n.metrics != nil && n.balloon != nil && n.balloon.historyTree != nil && n.balloon.hasherF != nil
+  requires n.metrics != nil && n.balloon != nil && HistProver(n.balloon.historyTree) && n.balloon.hasherF != nil
   modifies everything
 
 func newCommandFromRaft
